@@ -121,7 +121,12 @@ pub fn panic_text(e: Box<dyn std::any::Any + Send>) -> String {
 }
 
 pub fn quiet_panics() {
-    std::panic::set_hook(Box::new(|_| {}));
+    // (a panic of the harness itself -- outside any catch_unwind -- would otherwise end the process without a word)
+    std::panic::set_hook(Box::new(|info| {
+        if std::env::var("CONFORM_SHOW_PANICS").is_ok() {
+            eprintln!("panic: {}", info);
+        }
+    }));
 }
 
 /// Evaluate one query string completely (all results), hooks recording, panics caught.
